@@ -1,7 +1,8 @@
 """run the check of each seeded change's property on a scratch copy with the change applied;
 prints one line per seed: exit status and the first failed obligation (or undecided reason)"""
 import json, os, shutil, subprocess, sys, tempfile, time
-SEEDS = "/verif/seeded"
+HERE = os.path.dirname(os.path.dirname(os.path.abspath(__file__)))
+SEEDS = os.path.join(HERE, "seeded")
 extra = sys.argv[1:]  # e.g. --no-bounded
 only = [a for a in extra if not a.startswith("--")]
 flags = [a for a in extra if a.startswith("--")]
@@ -19,7 +20,7 @@ for sid in sorted(os.listdir(SEEDS)):
             rows.append((sid, prop, "patch failed", ""))
             continue
         t0 = time.time()
-        p = subprocess.run(["/verif/check", prop, "--tier", "quick"] + flags, env=dict(os.environ, VERIF_REPO=d), capture_output=True, text=True, timeout=1800)
+        p = subprocess.run([os.path.join(HERE, "check"), prop, "--tier", "quick"] + flags, env=dict(os.environ, VERIF_REPO=d, VERIF_NO_EVIDENCE="1", VERIF_OUT_SUFFIX="_seed"), capture_output=True, text=True, timeout=1800)
         out = p.stdout
         first = ""
         lines = out.splitlines()
